@@ -566,8 +566,14 @@ def generate(prop, seed):
             faults.append({'site': 'fs', 'op': 'open', 'dest': '/d/pp%d' % i, 'mode': 'r',
                            'nth': rng.randint(0, 2), 'exc': 'oserror'})
         elif kind == 'alloc':
-            faults.append({'site': 'fs', 'op': 'open', 'dest': '/d/pp%d' % i, 'mode': 'w',
-                           'exc': 'oserror'})
+            if rng.random() < 0.4:
+                # the error surfaces when the freshly allocated file is closed
+                # (deferred ENOSPC / EDQUOT): the first close of this destination
+                faults.append({'site': 'fs', 'op': 'close', 'dest': '/d/pp%d' % i,
+                               'exc': 'oserror'})
+            else:
+                faults.append({'site': 'fs', 'op': 'open', 'dest': '/d/pp%d' % i, 'mode': 'w',
+                               'exc': 'oserror'})
         else:
             faults.append({'site': 'fs', 'op': 'rename', 'dest': '/d/pp%d' % i,
                            'exc': 'oserror'})
